@@ -52,6 +52,9 @@ pub struct Case {
     /// 0 none; 1 the same routine at the same point with a different map;
     /// 2 a Newton solve (finite-difference Jacobian) that converges onto the point
     pub prelude: u8,
+    /// the user map itself calls the Jacobian routine (of another small map) during each
+    /// evaluation — legal re-entrant use (a Hessian-like computation, a nested solve)
+    pub reentrant: bool,
 }
 
 pub struct C18;
@@ -252,6 +255,11 @@ fn run_real(case: &Case) -> Outcome {
             if case.panic_at == Some(idx) {
                 panic!("{}", PANIC_MARK);
             }
+            if case.reentrant {
+                let inner = |y: Vec64| -> Vec64 { Vector::<f64>::create(y.vec.iter().map(|v| 2.0 * v + 1.0).collect()) };
+                let at = Vector::<f64>::create((0..case.n).map(|k| 100.0 + k as f64).collect());
+                let _ = Mat64::jacobian(at, &inner, case.delta);
+            }
             Vector::<f64>::create(answer(case, &x.vec, class))
         };
         let point = Vector::<f64>::create(case.point.clone());
@@ -284,6 +292,11 @@ fn run_real(case: &Case) -> Outcome {
             };
             if case.panic_at == Some(idx) {
                 panic!("{}", PANIC_MARK);
+            }
+            if case.reentrant {
+                let inner = |y: Vector<Cmplx>| -> Vector<Cmplx> { Vector::<Cmplx>::create(y.vec.iter().map(|c| Cmplx::new(2.0 * c.real + 1.0, 2.0 * c.imag)).collect()) };
+                let at = Vector::<Cmplx>::create((0..case.n).map(|k| Cmplx::new(100.0 + k as f64, -7.0)).collect());
+                let _ = Matrix::<Cmplx>::jacobian_cmplx(at, &inner, case.delta);
             }
             let a = answer(case, &flat, class);
             Vector::<Cmplx>::create(a.chunks(2).map(|p| Cmplx::new(p[0], p[1])).collect())
@@ -461,7 +474,8 @@ impl Prop for C18 {
             }
         }
         let prelude = if dyadic_forced { 0 } else { match frng.below(10) { 0 | 1 => 1, 2 | 3 => 2, _ => 0 } };
-        Case { cmplx, m, n, point, delta, dyadic, kind, faults, panic_at, prelude }
+        let reentrant = !dyadic_forced && frng.chance(0.1);
+        Case { cmplx, m, n, point, delta, dyadic, kind, faults, panic_at, prelude, reentrant }
     }
 
     fn execute(&self, case: &Case, stats: &mut Stats) -> Verdict {
@@ -475,7 +489,7 @@ impl Prop for C18 {
         ch.u64(m as u64);
         ch.u64(n as u64);
         ch.u64(case.cmplx as u64);
-        ch.u64(case.prelude as u64);
+        ch.u64(case.prelude as u64 + 16 * case.reentrant as u64);
         ch.f64(case.delta);
         for x in &case.point {
             ch.f64(*x);
@@ -498,6 +512,9 @@ impl Prop for C18 {
             Kind::Smooth { .. } => "probe.kind_smooth",
             Kind::Table { .. } => "probe.kind_table",
         });
+        if case.reentrant {
+            stats.count("probe.reentrant_callback");
+        }
         match case.prelude {
             1 => stats.count("probe.history_previous_jacobian_same_point"),
             2 => stats.count("probe.history_newton_solve_onto_point"),
@@ -622,6 +639,11 @@ impl Prop for C18 {
             c.prelude = 0;
             out.push(c);
         }
+        if case.reentrant {
+            let mut c = case.clone();
+            c.reentrant = false;
+            out.push(c);
+        }
         if case.panic_at.is_some() && !case.faults.is_empty() {
             let mut c = case.clone();
             c.faults.clear();
@@ -693,6 +715,7 @@ impl Prop for C18 {
             "callback_panics_at_evaluation": case.panic_at,
             "history_before_call": match case.prelude { 1 => "same routine, same point, different map", 2 => "Newton solve (finite-difference Jacobian) of x - point = 0 converging onto the point", _ => "none" },
             "prelude": case.prelude,
+            "callback_calls_the_jacobian_routine_itself": case.reentrant,
         })
     }
 
@@ -718,6 +741,7 @@ impl Prop for C18 {
             }).collect()).unwrap_or_default(),
             panic_at: v["callback_panics_at_evaluation"].as_u64().map(|x| x as usize),
             prelude: v["prelude"].as_u64().unwrap_or(0) as u8,
+            reentrant: v["callback_calls_the_jacobian_routine_itself"].as_bool().unwrap_or(false),
         }
     }
 
@@ -737,7 +761,7 @@ impl Prop for C18 {
     }
 
     fn required_probes(&self, _tier: Tier) -> Vec<&'static str> {
-        vec!["m_lt_n", "m_gt_n", "m_eq_n", "complex", "real", "kind_affine", "kind_smooth", "kind_table", "exact_arithmetic", "rounded_arithmetic", "fault_reached_entry", "history_previous_jacobian_same_point", "history_newton_solve_onto_point"]
+        vec!["m_lt_n", "m_gt_n", "m_eq_n", "complex", "real", "kind_affine", "kind_smooth", "kind_table", "exact_arithmetic", "rounded_arithmetic", "fault_reached_entry", "history_previous_jacobian_same_point", "history_newton_solve_onto_point", "reentrant_callback"]
     }
 }
 
